@@ -2,6 +2,7 @@ package main
 
 import (
 	"bytes"
+	"encoding/json"
 	"fmt"
 	"go/ast"
 	"go/importer"
@@ -87,9 +88,10 @@ func copyTree(src, dst string, keep func(rel string, d fs.DirEntry) bool) error 
 
 // rewriteStats says what the sync.Pool -> simrt.Pool rewrite did.
 type rewriteStats struct {
-	Files     int
-	Rewritten int // selector expressions replaced
-	Points    int // inner yield points inserted
+	Files      int
+	Rewritten  int // selector expressions replaced
+	Points     int // inner yield points inserted
+	PointNames []string
 }
 
 // rewriteDir applies the source transformations to one package directory of
@@ -147,7 +149,13 @@ func rewriteDir(dir string) (poolRefs, points int, err error) {
 		defer os.Chdir(wd)
 		conf.Check("scratch/"+filepath.Base(dir), fset, files, info)
 	}()
-	rw := &rewriter{info: info, typed: typed && os.Getenv("VERIF_NO_TYPES") == ""}
+	src := map[string][]byte{}
+	for _, p := range paths {
+		if data, err := os.ReadFile(p); err == nil {
+			src[p] = data
+		}
+	}
+	rw := &rewriter{info: info, typed: typed && os.Getenv("VERIF_NO_TYPES") == "", fset: fset, points: &pointTable, src: src}
 	for i, f := range files {
 		n, pts, err := rw.file(fset, f, paths[i])
 		if err != nil {
@@ -161,10 +169,39 @@ func rewriteDir(dir string) (poolRefs, points int, err error) {
 
 var filesSeen int
 
+// pointTable names the inner yield points of the current scratch build.
+var pointTable = []string{""}
+
 type rewriter struct {
-	info  *types.Info
-	typed bool
-	n     int
+	info   *types.Info
+	typed  bool
+	n      int
+	fset   *token.FileSet
+	points *[]string // id -> "file:line statement" (index 0 unused)
+	src    map[string][]byte
+}
+
+// point returns the inner yield point standing before statement s, numbered
+// so that traces and the reach measure can name the statement.
+func (rw *rewriter) point(s ast.Stmt) ast.Stmt {
+	pos := rw.fset.Position(s.Pos())
+	text := ""
+	if src, ok := rw.src[pos.Filename]; ok && pos.Offset < len(src) {
+		end := rw.fset.Position(s.End()).Offset
+		if end > len(src) {
+			end = len(src)
+		}
+		text = string(src[pos.Offset:end])
+		if i := strings.IndexByte(text, '\n'); i >= 0 {
+			text = text[:i] + " ..."
+		}
+		if len(text) > 60 {
+			text = text[:60] + "..."
+		}
+	}
+	*rw.points = append(*rw.points, fmt.Sprintf("%s:%d `%s`", filepath.Base(pos.Filename), pos.Line, text))
+	id := len(*rw.points) - 1
+	return &ast.ExprStmt{X: &ast.CallExpr{Fun: simrtFn("PointAt"), Args: []ast.Expr{&ast.BasicLit{Kind: token.INT, Value: strconv.Itoa(id)}}}}
 }
 
 func (rw *rewriter) file(fset *token.FileSet, f *ast.File, path string) (poolRefs, points int, err error) {
@@ -571,7 +608,7 @@ func (rw *rewriter) instrument(f *ast.File) int {
 		out := make([]ast.Stmt, 0, 2*len(stmts))
 		for _, s := range stmts {
 			walk(s)
-			out = append(out, simrtCall("Point"))
+			out = append(out, rw.point(s))
 			n++
 			if ls, ok := s.(*ast.LabeledStmt); ok {
 				// keep the label on the (possibly rewritten) statement
@@ -668,6 +705,7 @@ func prepare(scratch string) (rewriteStats, error) {
 		}
 	}
 	filesSeen = 0
+	pointTable = []string{""}
 	err = filepath.WalkDir(sig, func(p string, d fs.DirEntry, err error) error {
 		if err != nil || !d.IsDir() {
 			return err
@@ -678,6 +716,10 @@ func prepare(scratch string) (rewriteStats, error) {
 		return err
 	})
 	st.Files = filesSeen
+	if data, jerr := json.Marshal(pointTable); jerr == nil {
+		os.WriteFile(filepath.Join(scratch, "points.json"), data, 0o644)
+	}
+	st.PointNames = append([]string{}, pointTable...)
 	if err != nil {
 		return st, err
 	}
